@@ -1,0 +1,17 @@
+//go:build verif
+
+// Contracts for package parser, read by /verif/govc (contract-based deductive verification).
+// Comments and pure specification functions only; compiled only with -tags verif.
+package parser
+
+// ---------------------------------------------------------------------------------------------
+// C14: map iteration order
+
+//@ func SortedIdNames
+//@ trusted small helper (collect keys, sort.Strings): assumed to return exactly the keys of the map, sorted
+//@ props C14 C06 C08 C11
+//@ results names
+//@ ensures forall i int :: 0 <= i && i < len(names) ==> has(m, names[i])
+//@ ensures forall k string :: has(m, k) ==> (exists i int :: 0 <= i && i < len(names) && names[i] == k)
+//@ modifies nothing
+//@ loop 0: order_assumed the collected keys are sorted before use: the result is the sorted key list, a function of the map as a set (sort.Strings assumed correct)
